@@ -119,3 +119,13 @@ func reuseSlice(in [][]int) []item {
 	}
 	return out
 }
+
+// LINT-USEAFTERCLOSE: Stat on a handle that was closed.
+func useAfterClose(f *os.File) int64 {
+	f.Close()
+	fi, err := f.Stat()
+	if err != nil {
+		return 0
+	}
+	return fi.Size()
+}
